@@ -22,7 +22,11 @@ TokDriven(e) == "tokdriven" \in DOMAIN e.cfg /\ e.cfg.tokdriven
 
 \* input given as bytes (from_utf8 front end, C10): the character stream is the lossy UTF-8 decoding of the
 \* concatenated bytes (Unicode: one U+FFFD per maximal ill-formed subsequence)
-RawOf(e) == IF "bytes" \in DOMAIN e THEN Decode(Concat(e.bytes, 1)) ELSE Concat(e.chunks, 1)
+\* text written by a script while the parser was paused after its end tag (C03): `virtual` is the input with every
+\* such string put where the tokenizer stood at that moment - the standard parses exactly that text
+RawOf(e) == IF "bytes" \in DOMAIN e THEN Decode(Concat(e.bytes, 1))
+            ELSE IF "virtual" \in DOMAIN e THEN e.virtual
+            ELSE Concat(e.chunks, 1)
 KeyOf(e) == <<RawOf(e), e.cfg.mode, e.cfg.ctx, e.cfg.scripting, e.cfg.srcdoc, e.cfg.iquirks, e.cfg.bom, e.cfg.drop_doctype, e.cfg.form_owner>>
 
 \* the L0 parser's result for a record: [dom, q, low]
